@@ -151,6 +151,19 @@ impl Hist {
         Some(Hist { doc, model, early, log: vec![], start_text: text.to_string(), start_feat: feat, shape: String::new(), attached: vec![] })
     }
 
+    /// start from a live document that was not produced by the reader (e.g. the result of `wrap_and_sort`)
+    pub fn from_doc(doc: Deb822, feat: &'static str) -> Option<Hist> {
+        let text = doc.to_string();
+        // the start state must itself be a well-formed document that reads back to what the object reports
+        let re = Deb822::from_str(&text).ok()?;
+        let model = live_content(&doc);
+        if live_content(&re) != model {
+            return None;
+        }
+        let early = doc.paragraphs().enumerate().map(|(i, p)| (p, Some(i))).collect();
+        Some(Hist { doc, model, early, log: vec![], start_text: text, start_feat: feat, shape: String::new(), attached: vec![] })
+    }
+
     /// remember which comments are attached to which (non-empty) model paragraph in `text`
     fn sync_attached(&mut self, text: &str) {
         self.attached.resize(self.model.len(), vec![]);
@@ -551,12 +564,20 @@ fn target_class(model: &Content, op: &Op) -> &'static str {
     }
 }
 
-fn hist_lane(ctx: &mut Ctx, _idx: u64) {
+fn hist_lane(ctx: &mut Ctx, idx: u64) {
     let mut r = ctx.rng();
     let pool: Option<&'static [&'static str]> = if r.chance(1, 2) { Some(&POOL) } else { None };
     let d = gen::gen_doc(&mut r, &GOpts { name_pool: pool, ..GOpts::default() });
     let feat = super::c03::main_feature(&d.features);
-    let Some(mut h) = Hist::from_text(&d.text, feat) else {
+    // one start document in five is the live result of a (content-preserving) wrap-and-sort, whose tree is laid
+    // out differently from what the reader builds
+    let start = if idx % 5 == 2 {
+        ctx.count("start:wrap_and_sort-result");
+        guard(d.text.len() + 64, || Deb822::from_str(&d.text).ok().map(|x| x.wrap_and_sort(None, None))).ok().flatten().and_then(|x| Hist::from_doc(x, feat))
+    } else {
+        Hist::from_text(&d.text, feat)
+    };
+    let Some(mut h) = start else {
         ctx.count("skipped:start-document-rejected");
         return;
     };
